@@ -823,11 +823,14 @@ _RECORD = []
 
 
 class _RecordingStub(object):
-    """stands in for a solver / eliminator / interpolator / optimizer class: records the logic it is created with"""
+    """stands in for a solver / eliminator / interpolator / optimizer class: records the logic it is created with
+    and every formula it is handed"""
     LOGICS = []
 
     def __init__(self, environment=None, logic=None, **kwargs):
-        _RECORD.append((type(self), logic))
+        self.logic = logic
+        self.received = []
+        _RECORD.append(self)
 
     def __enter__(self):
         return self
@@ -839,11 +842,12 @@ class _RecordingStub(object):
         pass
 
     def is_sat(self, f):
+        self.received.append(f)
         return True
     is_valid = is_unsat = is_sat
 
     def add_assertion(self, f, named=None):
-        pass
+        self.received.append(f)
 
     def solve(self, assumptions=None):
         return False
@@ -855,12 +859,15 @@ class _RecordingStub(object):
         return set()
 
     def eliminate_quantifiers(self, f):
+        self.received.append(f)
         return f
 
     def binary_interpolant(self, a, b):
+        self.received.extend([a, b])
         return None
 
     def sequence_interpolant(self, fs):
+        self.received.extend(fs)
         return None
 
 
@@ -870,13 +877,14 @@ def call_entry(entry, f, name, logic_kw):
     fn = getattr(SC, entry)
     if entry in CTOR_ENTRIES:
         return fn(name=name, **logic_kw)
+    fs = f if isinstance(f, list) else [f]
     if entry == "get_unsat_core":
-        return fn([f], solver_name=name, **logic_kw)
+        return fn(list(fs), solver_name=name, **logic_kw)
     if entry == "binary_interpolant":
-        return fn(f, f, solver_name=name, **logic_kw)
+        return fn(fs[0], fs[-1], solver_name=name, **logic_kw)
     if entry == "sequence_interpolant":
-        return fn([f, f], solver_name=name, **logic_kw)
-    return fn(f, solver_name=name, **logic_kw)
+        return fn(list(fs) if len(fs) > 1 else [fs[0], fs[0]], solver_name=name, **logic_kw)
+    return fn(fs[0], solver_name=name, **logic_kw)
 
 
 class StubFactory(object):
@@ -914,9 +922,70 @@ def entry_outcome(entry, f, name, logic_kw, classes):
         return ("err", type(e).__name__)
     if len(_RECORD) != 1:
         return ("err", "instances=%d" % len(_RECORD))
-    cls, L = _RECORD[0]
-    nm = [k for k, v in classes.items() if v is cls]
-    return ("ok", nm[0] if nm else "?", L)
+    inst = _RECORD[0]
+    nm = [k for k, v in classes.items() if v is type(inst)]
+    return ("ok", nm[0] if nm else "?", inst.logic, list(inst.received))
+
+
+
+def check_received(ctx, entry, mode, name, o, rp):
+    """every formula a solver instance receives must be expressible in the logic the instance was created for"""
+    if o[0] != "ok" or not isinstance(o[2], PL.Logic):
+        return
+    L = o[2]
+    for g in o[3]:
+        need, quant, extra = features(g)
+        nb = need_bits(dict(extra, **need))
+        miss = uncovered(tbits(L.theory), nb)
+        if miss or (quant and L.quantifier_free):
+            if has_int_pow(g) and miss == ["real_arithmetic"]:
+                continue            # known F46
+            ctx.report_s({"oracle": "factory-entry", "entry": entry, "mode": mode, "axiom": "received-covered"},
+                         "%s(..., solver_name=%s, logic=%s): the solver %s was created for %s and then handed `%s`, "
+                         "which needs %s" % (entry, name, mode, o[1], L.name, g.serialize()[:120],
+                                             miss or ["quantifiers"]), rp)
+            return
+
+
+def multi_formula_entries(ctx, T):
+    """get_unsat_core / binary_interpolant / sequence_interpolant detect ONE logic for several formulas and hand
+    each formula to the solver separately: clause sets with the literals False / True, duplicates, the empty set"""
+    r = ctx.rng
+    env = get_env()
+    sh = Shapes(env)
+    m = env.formula_manager
+    I, R = m.Int, m.Real
+    lia = m.LT(m.Plus(sh.x, sh.y), I(3))
+    lra = m.LE(m.Plus(sh.r, sh.s), R(2))
+    bv = m.Equals(m.BVAdd(sh.v, m.BV(1, 8)), m.BV(0, 8))
+    uf = m.Equals(sh.app(sh.fII, sh.x), sh.y)
+    q = m.Exists([sh.y], m.GT(m.Plus(sh.y, sh.y), sh.x))
+    bo = m.Or(sh.b, sh.b2)
+    F, Tr = m.FALSE(), m.TRUE()
+    sets = [[lia, m.Not(lia)], [uf, lia, m.Not(uf)], [lia, F, uf], [F, lia], [lia, F], [bv, F, bo], [lra, Tr, lia],
+            [Tr, bv], [lia, lia, lia], [bo, F], [F], [Tr], [], [q, F, lia], [m.Not(Tr), lra], [m.And(lia, F), uf],
+            [m.Or(F, lia), F, bv]]
+    for _ in range(6 if ctx.tier == "quick" else 60):
+        k = r.choice([2, 3, 4])
+        sets.append([r.choice([lia, lra, bv, uf, q, bo, F, Tr, m.Not(lia)]) for _ in range(k)])
+    allp = [l.name for l in T.sorted_set("PYSMT_LOGICS")]
+    specs = [("all", allp), ("boolonly", ["BOOL", "QF_BOOL"])]
+    classes = {nm: type("C13Multi_" + nm, (_RecordingStub,), {"LOGICS": [T.named[x] for x in ls]}) for nm, ls in specs}
+    for prefs in (["all", "boolonly"], ["boolonly", "all"]):
+        with StubFactory(classes, prefs):
+            for cl in sets:
+                for entry in ("get_unsat_core", "binary_interpolant", "sequence_interpolant"):
+                    if not cl and entry != "get_unsat_core":
+                        continue
+                    for name in (None, "all"):
+                        for mode, kw in (("omitted", {}), ("None", {"logic": None}), ("AUTO", {"logic": PL.AUTO})):
+                            o = entry_outcome(entry, list(cl), name, kw, classes)
+                            rp = {"kind": "factory-multi", "entry": entry, "mode": mode, "solver_name": name,
+                                  "formulas": [g.serialize() for g in cl], "wires": [wire.enc_term(g) for g in cl],
+                                  "prefs": prefs}
+                            check_received(ctx, entry, mode, name, o, rp)
+                            ctx.case(("multi", entry, mode, name, tuple(g.serialize() for g in cl)) if len(cl) > 1 else None)
+                            ctx.count("multi_" + (o[0] if o[0] == "ok" else str(o[1])))
 
 
 def factory_entry_points(ctx, T, lean_ok):
@@ -1001,6 +1070,8 @@ def factory_entry_points(ctx, T, lean_ok):
                                                  "%s(`%s`, solver_name=%s, logic=%s) %s" % (
                                                      entry, f.serialize()[:100], name, mode if mode in ("omitted", "None", "AUTO")
                                                      else explicit.name, why), rp)
+                            if not ctor and mode in ("omitted", "None", "AUTO"):
+                                check_received(ctx, entry, mode, name, o, rp)   # an explicit logic is the caller's choice
                             # K against the model of _get_solver_class composed with the wrapper
                             if lean_ok and mode != "AUTO" or (lean_ok and not ctor):
                                 if mode in ("object", "string"):
@@ -1507,7 +1578,7 @@ class Shapes:
         return self.m.Function(f, list(args))
 
 
-def detect_check(ctx, env, tag, f, stats):
+def detect_check(ctx, env, tag, f, stats, route="plain"):
     from pysmt.oracles import get_logic
     from pysmt.smtlib.script import smtlibscript_from_formula
     core, quant, extra = features(f)
@@ -1521,15 +1592,15 @@ def detect_check(ctx, env, tag, f, stats):
     except Exception:
         w = None
     rp = {"kind": "detect", "tag": tag, "formula": f.serialize()[:400], "wire": w, "needs": sorted(need),
-          "quantified": quant}
+          "quantified": quant, "route": route}
     root = op.op_to_str(f.node_type())
     context = "int-pow" if has_int_pow(f) else "plain"
 
     def missing(kind, have_bits, qf, label):
         miss = uncovered(have_bits, nb)
         for ft in miss:
-            ctx.report_s({"oracle": kind, "missing": ft, "via": need.get(ft, "?"), "context": context},
-                         "%s of `%s` is %s: lacks %s (needed because of %s)" % (
+            ctx.report_s({"oracle": kind, "missing": ft, "via": need.get(ft, "?"), "context": context, "route": route},
+                         ("" if route == "plain" else "[%s] " % route) + "%s of `%s` is %s: lacks %s (needed because of %s)" % (
                              kind, f.serialize()[:160], label, ft, need.get(ft, "?")), rp)
         if quant and qf:
             ctx.report_s({"oracle": kind, "missing": "quantifiers", "via": "quantifier"},
@@ -1611,6 +1682,84 @@ def detect_check(ctx, env, tag, f, stats):
     return (w, hb, core_bits, quant, lo, script_lo)
 
 
+
+_PICKLE_ENV = []
+
+
+def pickle_copy(f):
+    import pickle
+    return pickle.loads(pickle.dumps(f, pickle.HIGHEST_PROTOCOL))
+
+
+def pickled_routes(ctx, env, tagged, stats):
+    """the same formulas after a pickle round trip (how formulas reach portfolio workers): analysed as they are,
+    and after normalisation into another environment; detection must cover them like the originals"""
+    from pysmt.environment import Environment
+    if not _PICKLE_ENV:
+        _PICKLE_ENV.append(Environment())
+    env2 = _PICKLE_ENV[0]
+    for tag, f in tagged:
+        try:
+            cp = pickle_copy(f)
+        except Exception as e:
+            ctx.count("pickle_failed_" + type(e).__name__)
+            continue
+        detect_check(ctx, env, tag, cp, stats, route="pickle")
+        try:
+            norm = env2.formula_manager.normalize(cp)
+        except Exception as e:
+            ctx.count("normalize_failed_" + type(e).__name__)
+            continue
+        detect_check(ctx, env2, tag, norm, stats, route="pickle+normalize")
+        ctx.count("pickled_formulas")
+
+
+RESERVED_SORTS = [("Int", 0), ("Real", 0), ("Bool", 0), ("String", 0), ("BV{8}", 0), ("BitVec", 1), ("Array", 2),
+                  ("RoundingMode", 0), ("Array{Int, Int}", 0)]
+
+
+def confusable_sorts(ctx, stats, only_order=None):
+    """user-declared sorts named / shaped like the built-in ones next to the built-in sorts, in ONE environment,
+    in both orders; the extractor judges by what the type object is (is_array_type / is_custom_type ...)"""
+    from pysmt.environment import Environment
+
+    def user(env):
+        m, tm = env.formula_manager, env.type_manager
+        out = []
+        for k, (name, arity) in enumerate(RESERVED_SORTS):
+            decl = tm.Type(name, arity)
+            sort = decl if arity == 0 else tm.get_type_instance(decl, *([INT] * arity))
+            u, v = m.Symbol("c13u%d" % k, sort), m.Symbol("c13v%d" % k, sort)
+            out.append(("user:%s/%d" % (name, arity), m.Equals(u, v)))
+            fn = m.Symbol("c13fn%d" % k, FunctionType(BOOL, [sort, INT]))
+            out.append(("user-fn:%s/%d" % (name, arity), m.Function(fn, [u, m.Int(1)])))
+            q = m.Symbol("c13q%d" % k, sort)
+            out.append(("user-bound:%s/%d" % (name, arity), m.ForAll([q], m.Symbol("c13b", BOOL))))
+        return out
+
+    def builtin(env):
+        m = env.formula_manager
+        i, j = m.Symbol("select", INT), m.Symbol("store", INT)
+        r = m.Symbol("Real", REAL)
+        st = m.Symbol("String", STRING)
+        b = m.Symbol("bvadd", BVType(8))
+        a, a2 = m.Symbol("Array", ArrayType(INT, INT)), m.Symbol("c13a2", ArrayType(INT, INT))
+        ab = m.Symbol("c13ab", ArrayType(BVType(8), REAL))
+        return [("builtin:Int", m.LT(i, j)), ("builtin:Real", m.LT(r, m.Real(1))),
+                ("builtin:String", m.Equals(m.StrLength(st), i)), ("builtin:BV", m.BVULT(b, m.BV(3, 8))),
+                ("builtin:Array", m.Equals(m.Select(a, i), j)), ("builtin:Array-store", m.Equals(m.Store(a, i, j), a2)),
+                ("builtin:Array-BV-Real", m.LT(m.Select(ab, b), r)),
+                ("builtin:bound-array", m.ForAll([m.Symbol("c13qa", ArrayType(INT, INT))], m.Symbol("c13b", BOOL)))]
+    for order in ("user-first", "builtin-first"):
+        if only_order and order != only_order:
+            continue
+        env = Environment()
+        seq = (user(env) + builtin(env)) if order == "user-first" else (builtin(env) + user(env))
+        for tag, f in seq:
+            detect_check(ctx, env, tag, f, stats, route="confusable:" + order)
+            ctx.count("confusable_formulas")
+
+
 def detection(ctx, lean_caps):
     import gen
     env = get_env()
@@ -1624,6 +1773,8 @@ def detection(ctx, lean_caps):
         ctx.count("shape_" + tag)
         if r:
             kcases.append((f, r))
+    pickled_routes(ctx, env, shapes, stats)
+    confusable_sorts(ctx, stats)
     ctx.sample({"shape": shapes[0][0], "formula": shapes[0][1].serialize(), "needs": sorted(features(shapes[0][1])[0]),
                 "theory": named_flags(tbits(env.theoryo.get_theory(shapes[0][1])))})
     # shapes inside random Boolean contexts / combined with each other
@@ -1667,6 +1818,8 @@ def detection(ctx, lean_caps):
             else:
                 f = m.LE(m.Select(sh.aBI, g), sh.z)
         res = detect_check(ctx, env, "random", f, stats)
+        if i % 5 == 0:
+            pickled_routes(ctx, env, [("random", f)], stats)
         if res and i % 3 == 0:
             kcases.append((f, res))
         if shown_random < 2 and len(features(f)[0]) >= 3:
@@ -1790,6 +1943,7 @@ def run(ctx):
     quantified_version(ctx, T)
     factory_cases(ctx, T, lean_ok and caps is not None and "factory" in caps)
     factory_entry_points(ctx, T, lean_ok and caps is not None and "factory" in caps)
+    multi_formula_entries(ctx, T)
     # ---- detection
     detection(ctx, caps)
 
@@ -1844,6 +1998,18 @@ def replay(ctx, rep):
         o = run_case(r["call"], t, lst)
         print("implementation:", show_outcome(o))
         check_selection(ctx, T, r["call"], t, lst, o)
+    elif k == "detect" and str(r.get("route", "")).startswith("confusable:"):
+        confusable_sorts(ctx, {}, only_order=r["route"].split(":", 1)[1])
+        print("re-ran the confusable-sorts history (%s): %d violations" % (r["route"], len(ctx.s_violations)))
+    elif k == "detect" and str(r.get("route", "")).startswith("pickle"):
+        env = get_env()
+        f = pickle_copy(build_fnode(env, wire.dec_term(r["wire"])))
+        if r["route"] == "pickle+normalize":
+            from pysmt.environment import Environment
+            env = Environment()
+            f = env.formula_manager.normalize(f)
+        print("formula (%s):" % r["route"], f.serialize(), " theory:", named_flags(tbits(env.theoryo.get_theory(f))))
+        detect_check(ctx, env, r.get("tag", "replay"), f, {}, route=r["route"])
     elif k == "detect":
         env = get_env()
         f = build_fnode(env, wire.dec_term(r["wire"]))
@@ -1888,6 +2054,18 @@ def replay(ctx, rep):
                 (o[:2] != base[:2] or (o[0] == "ok" and not same(o[2], base[2]))):
             ctx.report_s({"oracle": "factory-entry", "entry": r["entry"], "mode": r["mode"], "axiom": "auto-modes-agree"},
                          "still disagree on replay", r)
+    elif k == "factory-multi":
+        env = get_env()
+        cl = [build_fnode(env, wire.dec_term(w)) for w in r["wires"]]
+        allp = [l.name for l in T.sorted_set("PYSMT_LOGICS")]
+        specs = [("all", allp), ("boolonly", ["BOOL", "QF_BOOL"])]
+        classes = {nm: type("C13Multi_" + nm, (_RecordingStub,), {"LOGICS": [T.named[x] for x in ls]}) for nm, ls in specs}
+        kws = {"omitted": {}, "None": {"logic": None}, "AUTO": {"logic": PL.AUTO}}
+        with StubFactory(classes, r["prefs"]):
+            o = entry_outcome(r["entry"], cl, r["solver_name"], kws[r["mode"]], classes)
+        print(r["entry"], [g.serialize() for g in cl], "->", show_entry(o),
+              "received:", [g.serialize() for g in o[3]] if o[0] == "ok" else None)
+        check_received(ctx, r["entry"], r["mode"], r["solver_name"], o, r)
     elif k == "k-line":
         try:
             print("model now:", ctx.lean_run("C13", [r["request"]])[0], " recorded impl:", r["impl"])
